@@ -131,9 +131,8 @@ def prelude(nl=None):
     Ok(unsafe { String::from_utf8_unchecked(v) })
   }
 
-  /// Heap ledger.  Under Kani it is fed by recording shims that replace
-  /// alloc::alloc::{alloc, alloc_zeroed, dealloc, realloc} (-Z stubbing); in a native
-  /// concrete playback it is fed by the #[global_allocator] below (Kani ignores that item).
+  /// Heap ledger for NATIVE concrete playback only: fed by the #[global_allocator] below, which Kani ignores
+  /// (under Kani NATIVE stays false and every ledger assertion is vacuous; CBMC's --memory-leak-check decides).
   pub mod led {
     use core::alloc::Layout;
     pub static mut ON: bool = false;
@@ -171,23 +170,6 @@ def prelude(nl=None):
       if !NATIVE { E_BAD_FREE = true; return false; }
       true
     }
-    extern "Rust" {
-      fn __rust_alloc(size: usize, align: usize) -> *mut u8;
-      fn __rust_alloc_zeroed(size: usize, align: usize) -> *mut u8;
-      fn __rust_dealloc(ptr: *mut u8, size: usize, align: usize);
-      fn __rust_realloc(ptr: *mut u8, old_size: usize, align: usize, new_size: usize) -> *mut u8;
-    }
-    pub unsafe fn s_alloc(l: Layout) -> *mut u8 { let p = __rust_alloc(l.size(), l.align()); on_alloc(p, l.size(), l.align()); p }
-    pub unsafe fn s_alloc_zeroed(l: Layout) -> *mut u8 { let p = __rust_alloc_zeroed(l.size(), l.align()); on_alloc(p, l.size(), l.align()); p }
-    pub unsafe fn s_dealloc(p: *mut u8, l: Layout) { if on_dealloc(p, l.size(), l.align()) { __rust_dealloc(p, l.size(), l.align()) } }
-    pub unsafe fn s_realloc(p: *mut u8, l: Layout, new_size: usize) -> *mut u8 {
-      if !on_dealloc(p, l.size(), l.align()) { return core::ptr::null_mut(); }
-      let q = __rust_realloc(p, l.size(), l.align(), new_size);
-      on_alloc(q, new_size, l.align());
-      q
-    }
-    pub unsafe fn s_dealloc_nn(p: core::ptr::NonNull<u8>, l: Layout) { s_dealloc(p.as_ptr(), l) }
-    pub unsafe fn s_realloc_nn(p: core::ptr::NonNull<u8>, l: Layout, new_size: usize) -> *mut u8 { s_realloc(p.as_ptr(), l, new_size) }
     pub struct Nat;
     unsafe impl core::alloc::GlobalAlloc for Nat {
       unsafe fn alloc(&self, l: Layout) -> *mut u8 {
@@ -225,12 +207,15 @@ def prelude(nl=None):
    .replace("@NL@", str(nl)).replace("@NH@", str(NH))
 
 
-# every path from liballoc to the allocator shims: the public alloc/alloc_zeroed and the private
-# dealloc_nonnull/realloc_nonnull (what both the public dealloc/realloc and `Global` go through)
-STUBS = ["#[kani::stub(alloc::alloc::alloc, led::s_alloc)]",
-         "#[kani::stub(alloc::alloc::alloc_zeroed, led::s_alloc_zeroed)]",
-         "#[kani::stub(alloc::alloc::dealloc_nonnull, led::s_dealloc_nn)]",
-         "#[kani::stub(alloc::alloc::realloc_nonnull, led::s_realloc_nn)]"]
+# Heap accounting WITHOUT stubbing the allocator.  The first version of this engine replaced alloc::alloc::{alloc,
+# alloc_zeroed, dealloc_nonnull, realloc_nonnull} by recording shims (-Z stubbing).  That turned out to be unreliable in
+# Kani 0.68: for some crate identities (the same source with the guest-rust dependency at /tmp/wt_rustgen instead of
+# /repo) a call site inside liballoc (Vec::push -> finish_grow) was routed neither to the shim nor to a working
+# allocator model but to an undefined function (nondet pointer, allocation not recorded), i.e. false alarms that depend
+# on symbol hashes.  Leaks are therefore decided by CBMC's own `--memory-leak-check` at harness exit, double free /
+# use after free / out-of-bounds / dealloc size by the CBMC and Kani built-in checks.  The ledger below only runs in
+# NATIVE concrete playback (fed by a #[global_allocator]) to confirm a Kani counterexample natively.
+STUBS = []
 # String::from_utf8 (reached through the generated `string_lift` under debug assertions): core's validator
 # (word-at-a-time scan with align_offset arithmetic) costs CBMC minutes for a 2-byte string; it is replaced by a
 # shim that asserts well-formedness with the harness's own validator and converts unchecked.
@@ -238,9 +223,10 @@ UTF8_STUB = "#[kani::stub(alloc::string::String::from_utf8, s_from_utf8)]"
 UTF8_STUB_DOC = ("alloc::string::String::from_utf8 is replaced (-Z stubbing) by a shim that asserts UTF-8 well-formedness with "
                  "the harness's own validator (Unicode table 3-7) and converts with from_utf8_unchecked; "
                  "core::str's validator itself is not executed (measured: > 4 min of SAT time for 2 symbolic bytes)")
-STUB_DOC = ["alloc::alloc::{alloc, alloc_zeroed, dealloc_nonnull, realloc_nonnull} (every route from liballoc to the allocator "
-            "shims) are replaced (-Z stubbing) by shims that record (pointer, size, align) in a ledger and forward to Kani's "
-            "__rust_alloc/__rust_alloc_zeroed/__rust_dealloc/__rust_realloc models"]
+STUB_DOC = ["heap: no allocator stubs; leaks = CBMC --memory-leak-check at harness exit (every block allocated during the harness -- "
+            "argument buffers, the user's values, lowered results -- must have been freed after post-return and after the harness "
+            "dropped what it received); double free / use after free / out-of-bounds = CBMC pointer checks; "
+            "dealloc size != allocation size = Kani's __rust_dealloc model; dealloc ALIGNMENT is not observable"]
 
 
 def storable(rty):
@@ -422,13 +408,13 @@ def func_harness(world, f, exports, post, traits, opts, L, S, res_ids):
                 hgen.check_flat1(ctx, f.result, gval, "ret", cabi_ret, "res")
     # ---- heap accounting ----
     exp = " + ".join("((%s) as isize)" % g for g in ctx.out_bufs) or "0"
-    hgen.kassert(ctx, "true", "led::LIVE == %s" % exp,
-                 "C06|leak-args|after the call (and the drop of the received value) only the result's buffers are live")
+    hgen.kassert(ctx, "led::NATIVE", "led::LIVE == %s" % exp,
+                 "C06|leak|native ledger: after the call (and the drop of the received value) only the result's buffers are live")
     if name in post and not struct_fail and cabi_ret:
         ctx.emit("m::__post_return_%s::<G>(ret);" % name)
     elif f.result is not None and has_heap(f.result):
         struct_fail.append("C06|post-return|the result owns heap buffers but no __post_return_%s was generated" % name)
-    hgen.kassert(ctx, "true", "led::LIVE == 0", "C06|leak-result|no block is live after post-return")
+    hgen.kassert(ctx, "led::NATIVE", "led::LIVE == 0", "C06|leak|native ledger: no block is live after post-return")
     hgen.kassert(ctx, "true", "hl::N <= %d" % NH, "H|ledger|handle ledger overflow (harness bound)")
     covers = [("true", "reached the end")]
     for v in in_vals[:2]:
@@ -481,7 +467,7 @@ def seq_harness(hname, mk, take, handle, kind, what):
     drop(r);
     kani::assert(!taken || hl::N == 0, "C07|seq|a handle that was given away (take_handle) is never dropped");
     kani::assert(taken || (hl::N == 1 && hl::count(%d, h as u64) == 1), "C07|seq|a handle that was never given away is dropped exactly once");
-    kani::assert(led::LIVE == 0, "C06|leak-result|no block is live at the end");
+    kani::assert(!led::NATIVE || led::LIVE == 0, "C06|leak|native ledger: no block is live at the end");
     kani::cover!(taken && nops == 3, "taken, three operations");
     kani::cover!(!taken && nops == 3, "never taken, three operations");
     // @DISPATCH@
@@ -501,7 +487,7 @@ def lifecycle_harness(res, kind):
     let h = m::_export_constructor_%(s)s_cabi::<My%(c)s>(v as i32) as u32;
     kani::assert(HT_N == 1 && HT_LIVE[0] && HT_H[0] == h, "C07|export-new|the constructor export returns the handle resource.new issued for the boxed value");
     kani::assert(hl::N == 0 && MY%(C)s_DROPS == 0, "C07|export-new|the handle is transferred to the host: neither handle nor value is dropped");
-    kani::assert(led::LIVE == 1, "C06|leak-args|exactly the boxed representation is live");
+    kani::assert(!led::NATIVE || led::LIVE == 1, "C06|leak|native ledger: exactly the boxed representation is live");
     let mut cur_h = h; let mut cur_v = v; let mut idx = 0usize;
     let nops: u8 = kani::any(); kani::assume(nops <= 2);
     let mut consumed = 0usize;
@@ -521,14 +507,14 @@ def lifecycle_harness(res, kind):
         kani::assert(HT_N == 2 && HT_LIVE[1] && HT_H[1] == back && !HT_LIVE[0], "C07|export-new|the new handle is the one resource.new issued");
         cur_h = back; cur_v = RE_NEWV; idx = 1; consumed = 1;
       }
-      kani::assert(led::LIVE == 1, "C06|leak-result|exactly one boxed representation is live");
+      kani::assert(!led::NATIVE || led::LIVE == 1, "C06|leak|native ledger: exactly one boxed representation is live");
     }
     // host drops its handle: the `[dtor]` export runs on the rep
     let rep = HT_P[idx];
     m::%(c)s::dtor::<My%(c)s>(rep);
     kani::assert(MY%(C)s_DROPS == consumed + 1 && MY%(C)s_LASTDROP == cur_v, "C07|export-dtor|the user's value is destroyed exactly once when the host drops the resource");
     kani::assert(MY%(C)s_NEW == consumed + 1, "C07|export-new|one user value per resource");
-    kani::assert(led::LIVE == 0, "C06|leak-result|the boxed representation is freed by the dtor");
+    kani::assert(!led::NATIVE || led::LIVE == 0, "C06|leak|native ledger: the boxed representation is freed by the dtor");
     kani::cover!(nops == 0, "constructor then dtor");
     kani::cover!(nops > 0 && RE_MODE == 0, "handle passed through an export");
     kani::cover!(nops > 0 && RE_MODE == 1, "into_inner and a new resource");
@@ -586,7 +572,7 @@ def import_calls_harness(res, kind):
       drop(x);
       kani::assert(hl::N == 1 && hl::count(%(k)d, h2 as u64) == 1, "C07|import-result|dropped exactly once with its Rust value");
     }
-    kani::assert(led::LIVE == 0, "C06|leak-result|no block is live at the end");
+    kani::assert(!led::NATIVE || led::LIVE == 0, "C06|leak|native ledger: no block is live at the end");
     kani::cover!(which == 0, "own to import"); kani::cover!(which == 1, "borrow to import");
     kani::cover!(which == 2, "own from import"); kani::cover!(which == 3, "constructor and method");
     // @DISPATCH@
@@ -622,9 +608,9 @@ def map_harness(n):
           'kani::assert(rl == %d, "C05|res|len");' % n]
     if one:
         L += ['kani::assert(ldp(rp, 0, 1) == gk as u64, "C05|res|value");', 'kani::assert(ldp(rp, 4, 4) == gv as u64, "C05|res|value");']
-    L += ['kani::assert(led::LIVE == %d, "C06|leak-args|after the call (and the drop of the received value) only the result\'s buffers are live");' % n,
+    L += ['kani::assert(!led::NATIVE || led::LIVE == %d, "C06|leak|native ledger: after the call (and the drop of the received value) only the result\'s buffers are live");' % n,
           "m::__post_return_f_map::<G>(ret);",
-          'kani::assert(led::LIVE == 0, "C06|leak-result|no block is live after post-return");',
+          'kani::assert(!led::NATIVE || led::LIVE == 0, "C06|leak|native ledger: no block is live after post-return");',
           'kani::cover!(true, "reached the end");', "// @DISPATCH@"]
     text = "\n".join(["#[kani::proof]", "#[kani::unwind(3)]"] + STUBS + ["pub fn k_f_map_len%d() { unsafe {" % n] +
                      ["  " + l for l in L] + ["} }"])
